@@ -1,0 +1,17 @@
+//go:build verif
+
+package interp
+
+import "unsafe"
+
+// VerifStep, when set, is called by the execution loop before every interpreted
+// operation (verification harness only, build tag verif). It receives the
+// interpreter, the interpreter's current run id, the run id of the executing frame,
+// the identity of that frame and whether it is the global frame.
+var VerifStep func(i *Interpreter, interpID, frameID uint64, frame uintptr, root bool)
+
+func verifStep(i *Interpreter, f *frame) {
+	if h := VerifStep; h != nil {
+		h(i, i.runid(), f.runid(), uintptr(unsafe.Pointer(f)), f == f.root)
+	}
+}
